@@ -143,14 +143,18 @@ SPECS = [
     dict(id='fn_core_c05', prop='C05', rule='F-core', kind='fnsum', reads=True, depth=1, fns=['<read::cfi::DebugFrame<R> as read::cfi::_UnwindSectionPrivate<R>>::resolve_cie_offset', '<read::cfi::EhFrame<R> as read::cfi::_UnwindSectionPrivate<R>>::resolve_cie_offset', 'read::cfi::Augmentation::parse', 'read::cfi::AugmentationData::parse', 'read::cfi::CommonInformationEntry::<R>::from_prefix', 'read::cfi::EhFrameHdr::<R>::parse', "read::cfi::EhHdrTable::<'a, R>::fde_for_address", "read::cfi::EhHdrTable::<'a, R>::lookup", "read::cfi::EhHdrTable::<'a, R>::pointer_to_offset", 'read::cfi::FrameDescriptionEntry::<R>::parse_addresses', 'read::cfi::FrameDescriptionEntry::<R>::parse_rest', "read::cfi::PartialFrameDescriptionEntry::<'bases, Section, R>::from_prefix", "read::cfi::PartialFrameDescriptionEntry::<'bases, Section, R>::parse", "read::cfi::PartialFrameDescriptionEntry::<'bases, Section, R>::parse_partial", 'read::cfi::parse_cfi_entry', 'read::cfi::parse_encoded_pointer']),
     dict(id='fn_core_c08', prop='C08', rule='F-core', kind='fnsum', reads=True, depth=1, fns=['read::addr::DebugAddr::<R>::get_address', 'read::dwarf::Dwarf::<R>::address', 'read::dwarf::Dwarf::<R>::attr_locations', 'read::dwarf::Dwarf::<R>::attr_locations_offset', 'read::dwarf::Dwarf::<R>::attr_ranges', 'read::dwarf::Dwarf::<R>::attr_ranges_offset', 'read::dwarf::Dwarf::<R>::die_ranges', 'read::dwarf::Dwarf::<R>::locations', 'read::dwarf::Dwarf::<R>::ranges', 'read::dwarf::Dwarf::<R>::ranges_offset_from_raw', 'read::dwarf::Dwarf::<R>::raw_locations', 'read::dwarf::Dwarf::<R>::raw_ranges', 'read::dwarf::Dwarf::<R>::unit_ranges', 'read::loclists::LocListIter::<R>::get_address', 'read::loclists::LocListIter::<R>::next', 'read::loclists::LocationLists::<R>::get_offset', 'read::loclists::LocationLists::<R>::locations', 'read::loclists::LocationLists::<R>::locations_dwo', 'read::loclists::LocationLists::<R>::raw_locations', 'read::loclists::LocationLists::<R>::raw_locations_dwo', 'read::rnglists::Range::add_base_address', 'read::rnglists::RangeLists::<R>::get_offset', 'read::rnglists::RangeLists::<R>::ranges', 'read::rnglists::RangeLists::<R>::raw_ranges', 'read::rnglists::RngListIter::<R>::get_address', 'read::rnglists::RngListIter::<R>::next']),
     dict(id='fn_core_c17', prop='C17', rule='F-core', kind='fnsum', reads=True, depth=1, fns=['<read::lookup::PubStuffParser<R, Entry> as read::lookup::LookupParser<R>>::parse_entry', '<read::lookup::PubStuffParser<R, Entry> as read::lookup::LookupParser<R>>::parse_header', 'read::addr::AddrHeader::<R, Offset>::parse', 'read::aranges::ArangeHeader::<R, Offset>::parse', 'read::dwarf::DwarfPackage::<R>::cu_sections', 'read::dwarf::DwarfPackage::<R>::find_cu', 'read::dwarf::DwarfPackage::<R>::find_tu', 'read::dwarf::DwarfPackage::<R>::sections', 'read::dwarf::DwarfPackage::<R>::tu_sections', 'read::dwarf::DwarfSections::<T>::borrow', 'read::dwarf::DwarfSections::<T>::load', 'read::index::UnitIndex::<R>::find', 'read::index::UnitIndex::<R>::parse', 'read::index::UnitIndex::<R>::sections', 'read::names::NameBucketIter::<R>::new', 'read::names::NameBucketIter::<R>::next', 'read::names::NameEntry::<R>::parse', 'read::names::NameHashIter::<R>::new', 'read::names::NameHashIter::<R>::next', 'read::names::NameIndex::<R>::compile_unit', 'read::names::NameIndex::<R>::compile_unit_count', 'read::names::NameIndex::<R>::foreign_type_unit', 'read::names::NameIndex::<R>::foreign_type_unit_count', 'read::names::NameIndex::<R>::local_type_unit', 'read::names::NameIndex::<R>::local_type_unit_count', 'read::names::NameIndex::<R>::name_string_offset', 'read::names::NameIndex::<R>::new', 'read::str::DebugStrOffsets::<R>::get_str_offset']),
-    dict(id='fn_core_c11', prop='C11', rule='F-core', kind='fnsum', reads=True, depth=1, fns=['write::abbrev::Abbreviation::write', 'write::abbrev::AbbreviationTable::add', 'write::abbrev::AbbreviationTable::write', 'write::abbrev::AttributeSpecification::write', 'write::dwarf::Dwarf::write', 'write::str::StringTable::add', 'write::str::StringTable::write', 'write::unit::DebuggingInformationEntry::calculate_offsets', 'write::unit::DebuggingInformationEntry::size', 'write::unit::DebuggingInformationEntry::write', 'write::unit::Unit::reorder_base_types', 'write::unit::Unit::write', 'write::unit::UnitTable::write']),
+    dict(id='fn_core_c11', prop='C11', rule='F-core', kind='fnsum', reads=True, depth=1, fns=['write::abbrev::Abbreviation::write', 'write::abbrev::AbbreviationTable::add', 'write::abbrev::AbbreviationTable::write', 'write::abbrev::AttributeSpecification::write', 'write::dwarf::Dwarf::write', 'write::str::StringTable::add', 'write::str::StringTable::write', 'write::unit::DebuggingInformationEntry::calculate_offsets', 'write::unit::DebuggingInformationEntry::size', 'write::unit::DebuggingInformationEntry::write', 'write::unit::Unit::reorder_base_types', 'write::unit::Unit::write', 'write::unit::UnitTable::write',
+        # the per-unit range / location list tables whose offsets the unit's attributes refer to
+        'write::range::RangeListTable::write', 'write::loc::LocationListTable::write']),
     dict(id='fn_core_c13', prop='C13', rule='F-core', kind='fnsum', reads=True, depth=1, fns=['write::line::LineProgram::add_directory', 'write::line::LineProgram::add_file', 'write::line::LineProgram::begin_sequence', 'write::line::LineProgram::end_sequence', 'write::line::LineProgram::generate_row', 'write::line::LineProgram::op_advance', 'write::line::LineProgram::set_address', 'write::line::LineProgram::write', 'write::line::LineString::write']),
     dict(id='fn_core_c14', prop='C14', rule='F-core', kind='fnsum', reads=True, depth=1, fns=['write::cfi::CommonInformationEntry::has_augmentation', 'write::cfi::CommonInformationEntry::write', 'write::cfi::FrameDescriptionEntry::write', 'write::cfi::FrameTable::add_cie', 'write::cfi::FrameTable::add_fde', 'write::cfi::FrameTable::write', 'write::cfi::FrameTable::write_debug_frame', 'write::cfi::FrameTable::write_eh_frame', 'write::cfi::factored_code_delta', 'write::cfi::factored_data_offset', 'write::cfi::write_advance_loc', 'write::cfi::write_nop']),
     dict(id='fn_core_c15', prop='C15', rule='F-core', kind='fnsum', reads=True, depth=1, fns=['write::op::Expression::size', 'write::op::Expression::write']),
     dict(id='fn_core_c16', prop='C16', rule='F-core', kind='fnsum', reads=True, depth=1, fns=['write::loc::LocationListTable::add', 'write::loc::LocationListTable::write', 'write::loc::write_expression', 'write::range::RangeListTable::add', 'write::range::RangeListTable::write']),
     dict(id='fn_core_c12', prop='C12', rule='F-core', kind='fnsum', reads=True, depth=1, fns=['write::dwarf::convert::<impl write::dwarf::Dwarf>::convert', 'write::dwarf::convert::<impl write::dwarf::Dwarf>::convert_with_filter', 'write::dwarf::convert::<impl write::dwarf::Dwarf>::from', "write::line::convert::ConvertLineProgram::<'a, R>::convert", "write::line::convert::ConvertLineProgram::<'a, R>::convert_file", "write::line::convert::ConvertLineProgram::<'a, R>::convert_row", "write::line::convert::ConvertLineProgram::<'a, R>::end_sequence", "write::line::convert::ConvertLineProgram::<'a, R>::generate_row", "write::line::convert::ConvertLineProgram::<'a, R>::new", "write::line::convert::ConvertLineProgram::<'a, R>::read_row", "write::line::convert::ConvertLineProgram::<'a, R>::set_address", "write::unit::convert::ConvertUnit::<'a, R>::convert", "write::unit::convert::ConvertUnit::<'a, R>::convert_attribute_value", "write::unit::convert::ConvertUnit::<'a, R>::convert_attributes", "write::unit::convert::ConvertUnit::<'a, R>::convert_debug_info_ref", "write::unit::convert::ConvertUnit::<'a, R>::convert_expression", "write::unit::convert::ConvertUnit::<'a, R>::convert_file_index", "write::unit::convert::ConvertUnit::<'a, R>::convert_location_list", "write::unit::convert::ConvertUnit::<'a, R>::convert_range_list", "write::unit::convert::ConvertUnit::<'a, R>::convert_split", "write::unit::convert::ConvertUnit::<'a, R>::convert_split_with_filter", "write::unit::convert::ConvertUnit::<'a, R>::convert_unit_ref"]),
     dict(id='fn_core_c19', prop='C19', rule='F-core', kind='fnsum', reads=True, depth=1, fns=["write::unit::convert::ConvertUnit::<'a, R>::add_entry", "write::unit::convert::ConvertUnit::<'a, R>::read_entry", "write::unit::convert::ConvertUnitSection::<'a, R>::new_with_filter", "write::unit::convert::ConvertUnitSection::<'a, R>::read_unit", "write::unit::convert::ConvertUnitSection::<'a, R>::reserve_unit", 'write::unit::convert::FilterDependencies::add_edge', 'write::unit::convert::FilterDependencies::add_entry', 'write::unit::convert::FilterDependencies::get_reachable', "write::unit::convert::FilterUnit::<'a, R>::filter_attributes", "write::unit::convert::FilterUnit::<'a, R>::new", "write::unit::convert::FilterUnit::<'a, R>::read_entry", "write::unit::convert::FilterUnit::<'a, R>::require_entry"]),
-    dict(id='fn_core_c18', prop='C18', rule='F-core', kind='fnsum', reads=True, depth=1, fns=['read::relocate::RelocateReader::<R, T>::inner', 'read::relocate::RelocateReader::<R, T>::new', 'write::relocate::<impl write::writer::Writer for T>::endian', 'write::relocate::<impl write::writer::Writer for T>::len', 'write::relocate::<impl write::writer::Writer for T>::write', 'write::relocate::<impl write::writer::Writer for T>::write_address', 'write::relocate::<impl write::writer::Writer for T>::write_at', 'write::relocate::<impl write::writer::Writer for T>::write_eh_pointer', 'write::relocate::<impl write::writer::Writer for T>::write_offset', 'write::relocate::<impl write::writer::Writer for T>::write_offset_at']),
+    dict(id='fn_core_c18', prop='C18', rule='F-core', kind='fnsum', reads=True, depth=1, fns=['read::relocate::RelocateReader::<R, T>::inner', 'read::relocate::RelocateReader::<R, T>::new', 'write::relocate::<impl write::writer::Writer for T>::endian', 'write::relocate::<impl write::writer::Writer for T>::len', 'write::relocate::<impl write::writer::Writer for T>::write', 'write::relocate::<impl write::writer::Writer for T>::write_address', 'write::relocate::<impl write::writer::Writer for T>::write_at', 'write::relocate::<impl write::writer::Writer for T>::write_eh_pointer', 'write::relocate::<impl write::writer::Writer for T>::write_offset', 'write::relocate::<impl write::writer::Writer for T>::write_offset_at',
+        # the writer functions that take an Address::Symbol apart or build one (symbol + addend arithmetic)
+        'write::loc::LocationListTable::write_loc', 'write::range::RangeListTable::write_ranges', 'write::writer::Writer::write_address', 'write::writer::Writer::write_eh_pointer']),
 ]
 
 
